@@ -176,6 +176,27 @@ def value_stream(rng, sigs):
     return groups
 
 
+RECEIVERS = ["falsy_bool", "len0", "bool_raises", "eq_all", "emptylist", "emptydict", "zero", "slots", "classmethod"]
+
+
+def receiver_stream(sigs):
+    """bound methods whose receiver has a non-standard truth value / equality, is an instance of a class with
+    __slots__, or is the class itself (bound classmethod); every call shape, without and with ignore=[self]"""
+    groups = []
+    for recv in RECEIVERS:
+        for meth in ("pk", "po"):
+            for sig in sigs:
+                if len(sig) > 2:
+                    continue
+                calls = []
+                for pos, kw, _ in calls_for(sig, meth):
+                    calls.append([pos, kw, None])
+                    if not kw:
+                        calls.append([pos, kw, [SELF_NAME]])
+                groups.append({"sig": sig, "meth": meth, "receiver": recv, "calls": calls, "stream": "receivers"})
+    return groups
+
+
 def with_defaults(sig, mode, base):
     """same kinds and names, other defaults (what another function object on the same code can have)"""
     out = []
@@ -436,6 +457,8 @@ def shard_worker(job):
             pos, kw, ign = call[0], call[1], call[2]
             rr = r["res"][ci]
             co = case_obj(sig, meth, pos, kw, ign)
+            if g.get("receiver"):
+                co["receiver"] = g["receiver"]
             r = dict(r, src=case_src(r, call))
             if g.get("family"):
                 # the outcome may depend on what the interpreter canonicalised before: keep the history
@@ -697,6 +720,8 @@ def run_case_on_impl(c):
         r = run_impl_groups([g])[0]
         return case_src(r, g["calls"][-1]), r["res"][-1]
     g = {"sig": c["sig"], "meth": c["meth"], "calls": [[c["pos"], c["kw"], c["ign"]]]}
+    if c.get("receiver"):
+        g["receiver"] = c["receiver"]
     r = run_impl_groups([g])[0]
     return r["src"], r["res"][0]
 
@@ -793,10 +818,13 @@ def run(ctx):
     groups += value_stream(ctx.rng, small)
     groups += share_families(small)
     groups += wraps_families(ctx.rng, small)
+    groups += receiver_stream(small)
     n_streams = sum(len(g["calls"]) for g in groups) - n_before
     # partial objects: filter_args does not look at the signature at all
     pgroups = [{"sig": sig, "meth": None, "partial": True, "calls": list(calls_for(sig, None))[:40]}
                for sig in sigs[:40]]
+    pgroups += [{"sig": sig, "meth": "pk", "receiver": recv, "partial": True, "calls": list(calls_for(sig, "pk"))[:12]}
+                for sig in sigs[:6] for recv in ["plain"] + RECEIVERS]
 
     # ---- shards: balance by number of calls
     nshard = max(1, min(4 * common.NCPU, len(groups)))
@@ -923,7 +951,10 @@ def run(ctx):
                 "Parameter.empty} (all-None, rotation, seeded random); (shared-code) four function objects on ONE code "
                 "object with different __defaults__/__kwdefaults__, plain and as methods, every call shape on f0,f1,f2,"
                 "f3,f0,... alternately in one interpreter; (wraps) triples of different functions behind one functools.wraps "
-                "decorator called alternately. distinct_nontrivial = "
+                "decorator called alternately; (receivers) over signatures with <= 2 parameters, methods bound to "
+                "receivers with non-standard truthiness/equality (__bool__ False, __len__ 0, __bool__ raising, __eq__ always "
+                "True, empty list/dict subclass, int subclass 0), to an instance of a __slots__ class and to the class "
+                "(bound classmethod), every call shape without and with ignore=[self]. distinct_nontrivial = "
                 "calls Python accepts that lie in the fragment of C07_agree_partial (all enumerated cases are "
                 "distinct by construction)" % (maxn, len(sigs), "all" if with_ignore >= 1 else "35% of the",
                                                n_rand_sigs, n_opaque),
@@ -933,7 +964,7 @@ def run(ctx):
         "source_tie_filter_args_loops": source_tie,
         "func_name_model": name_cov,
         "exhaustive_cases": n_exh,
-        "stream_cases_values_sharedcode_wraps": n_streams,
+        "stream_cases_values_sharedcode_wraps_receivers": n_streams,
         "corpus_and_witness_cases": n_corpus,
         "accepted_by_python": tot["accepted"],
         "ignore_list_cases": tot["ignore_cases"],
